@@ -71,33 +71,89 @@ Theorem C13_clean_means_unchanged : forall ops t tr x,
 Proof. exact clean_means_unchanged. Qed.
 
 (** "At most 2*height+2 nodes per modified key": an Insert that leaves the height as it is adds at
-    most 2*height pointer-reachable nodes beyond the root node it started from (generic; [pcount]
-    counts what a persist can have to write) ... *)
+    most 2*height pointer-reachable nodes ([pcount] counts what a persist can have to write: the
+    nodes held by pointer; behind a hash link there is one node once it is loaded) ... *)
 Theorem C13_insert_adds_at_most_2h : forall (K V : Type) (cmp : K -> K -> comparison) (veq : V -> V -> bool)
     (P : name -> node K V -> Prop),
   (forall h c, P h c -> allh K V P c) -> (forall h c, P h c -> pcount K V c = 1) ->
   forall (layer : K -> nat) (m : mast K V) k v, allh_l K V P (m_root _ _ m) ->
   okp (insert _ _ cmp veq layer m k v)
       (fun m' => m_height _ _ m' = m_height _ _ m ->
-                 pcount_l K V (m_root _ _ m') <= pcount_l K V (m_root _ _ m) + 1 + 2 * m_height _ _ m).
+                 pcount_l K V (m_root _ _ m') <= Nat.max 1 (pcount_l K V (m_root _ _ m)) + 2 * m_height _ _ m).
 Proof. exact insert_count. Qed.
 
+(** ... a Delete (merge) at most height ... *)
+Theorem C13_delete_adds_at_most_h : forall (K V : Type) (cmp : K -> K -> comparison) (veq : V -> V -> bool)
+    (P : name -> node K V -> Prop),
+  (forall h c, P h c -> allh K V P c) -> (forall h c, P h c -> pcount K V c = 1) ->
+  forall (layer : K -> nat) (m : mast K V) k v, allh_l K V P (m_root _ _ m) ->
+  okp (delete _ _ cmp veq layer m k v)
+      (fun m' => m_height _ _ m' = m_height _ _ m ->
+                 pcount_l K V (m_root _ _ m') <= Nat.max 1 (pcount_l K V (m_root _ _ m)) + m_height _ _ m).
+Proof. exact delete_count. Qed.
+
 (** ... so one Insert (new key or new value) into a freshly loaded version, followed by a persist,
-    emits at most 2*height+1 Store events *)
+    emits at most 2*height+1 Store events, one Delete at most height+1 *)
 Theorem C13_one_insert_writes_at_most_2h_plus_1 : forall s kind bf (m m' : kmast) k v t fuel f,
   root_allh s kind m -> (exists h c, m_root _ _ m = LHash h c) ->
   insert _ _ kcmp bytes_eqb (klayer bf) m k v = (t, Ok m') -> m_height _ _ m' = m_height _ _ m ->
   forall n', m_root _ _ m' = LPtr n' ->
   okt (store_node fuel f n') (fun ts _ => length (stored ts) <= 2 * m_height _ _ m + 1).
 Proof. exact insert_then_persist_writes. Qed.
+Theorem C13_one_delete_writes_at_most_h_plus_1 : forall s kind bf (m m' : kmast) k v t fuel f,
+  root_allh s kind m -> (exists h c, m_root _ _ m = LHash h c) ->
+  delete _ _ kcmp bytes_eqb (klayer bf) m k v = (t, Ok m') -> m_height _ _ m' = m_height _ _ m ->
+  forall n', m_root _ _ m' = LPtr n' ->
+  okt (store_node fuel f n') (fun ts _ => length (stored ts) <= m_height _ _ m + 1).
+Proof. exact delete_then_persist_writes. Qed.
 
-(** PARTIAL: the same bound for a Delete (merge), for batches, and that the unsaved nodes are only
-    those whose key range holds a modified key, is decided by the oracle on the implementation's recorded
-    Store calls (tools/oracle.py check_persist) and by the one-sided correspondence of store names
-    with the model; it is not proved as a theorem yet. *)
+(** ... and a batch: n >= 1 successful Inserts and Deletes on a freshly loaded version, none of which
+    changes the height ([chain]), then one persist: at most 1 + 2*height*n Store events, within
+    (2*height+2) per modified key *)
+Theorem C13_batch_writes_at_most_2h_plus_2_per_key : forall s kind bf (m m' : kmast) ops fuel f,
+  root_allh s kind m -> (exists h c, m_root _ _ m = LHash h c) -> chain bf m ops m' ->
+  forall n', m_root _ _ m' = LPtr n' ->
+  okt (store_node fuel f n') (fun ts _ => length (stored ts) <= 1 + 2 * m_height _ _ m * length ops
+                                        /\ (ops <> [] -> length (stored ts) <= (2 * m_height _ _ m + 2) * length ops)).
+Proof. exact batch_then_persist_writes. Qed.
+
+(** non-vacuity: a version persisted and reloaded (height 1, root held by hash), then an Insert of a
+    new key and a Delete, neither changing the height: the hypotheses of the batch theorem hold *)
+Definition ex13_ops : list op :=
+  [ONew 0%N 0%N 2%N None 1%N; OIns 0%N (KUint 1%N) [49%N]; OIns 0%N (KUint 2%N) [50%N]; OIns 0%N (KUint 4%N) [51%N]; OIns 0%N (KUint 5%N) [52%N];
+   OIns 0%N (KUint 7%N) [53%N]; OMakeRoot 0%N 0%N; OLoad 0%N 1%N 0%N 1%N].
+Definition ex13_batch : list wop := [WIns (KUint 9%N) [57%N]; WDel (KUint 5%N) [52%N]].
+Example C13_example_batch :
+  exists tr s kind m2 n',
+    aget (w_trees (wrun empty_world ex13_ops)) 1%N = Some tr /\
+    root_allh s kind (t_m tr) /\ (exists h c, m_root _ _ (t_m tr) = LHash h c) /\ 0 < m_height _ _ (t_m tr) /\
+    chain 2%N (t_m tr) ex13_batch m2 /\ m_root _ _ m2 = LPtr n'.
+Proof.
+  assert (Hc : conds empty_world ([], []) ex13_ops) by (apply condsb_ok; vm_compute; reflexivity).
+  destruct (history_refines2 ex13_ops empty_world ([], []) winv2_empty Hc) as [_ [Ht _]]. specialize (Ht 1%N).
+  let v := eval vm_compute in (aget (w_trees (wrun empty_world ex13_ops)) 1%N) in
+    assert (E1 : aget (w_trees (wrun empty_world ex13_ops)) 1%N = v) by (vm_compute; reflexivity).
+  let v := eval vm_compute in (aget (fst (awrun2 ([], []) ex13_ops)) 1%N) in
+    assert (E2 : aget (fst (awrun2 ([], []) ex13_ops)) 1%N = v) by (vm_compute; reflexivity).
+  rewrite E1, E2 in Ht. destruct Ht as (_ & _ & Hall & _).
+  eexists _, _, _, _, _. split; [exact E1|]. split; [exact Hall|]. cbn [t_m].
+  split; [eexists _, _; reflexivity|]. split; [cbn [m_height]; apply Nat.lt_0_succ|].
+  split.
+  - eapply chain_cons; [vm_compute; reflexivity|reflexivity|].
+    eapply chain_cons; [vm_compute; reflexivity|reflexivity|]. apply chain_nil.
+  - reflexivity.
+Qed.
+
+(** PARTIAL: updates that change the height (the whole tree is rebuilt: the statement excludes them),
+    and that the unsaved nodes are only those whose key range holds a modified key, are decided by the
+    oracle on the implementation's recorded Store calls (tools/oracle.py check_persist) and by the
+    one-sided correspondence of store names with the model; they are not proved as theorems. *)
 Print Assumptions C13_noop.
 Print Assumptions C13_insert_adds_at_most_2h.
 Print Assumptions C13_one_insert_writes_at_most_2h_plus_1.
+Print Assumptions C13_delete_adds_at_most_h.
+Print Assumptions C13_one_delete_writes_at_most_h_plus_1.
+Print Assumptions C13_batch_writes_at_most_2h_plus_2_per_key.
 Print Assumptions C13_insert_leaves_dirty.
 Print Assumptions C13_delete_leaves_dirty.
 Print Assumptions C13_clean_means_unchanged.
